@@ -11,9 +11,13 @@
 (* result (extend-split, cell).  SUBTRACT_OLD models the repaired area_preprocessing that   *)
 (* first removes the previous contribution of a re-evaluated area.                         *)
 EXTENDS DriverOps, FiniteSetsExt
-CONSTANTS MAXK, MAXAREAS, STYLE, SUBTRACT_OLD, ALLOW_RESUME, LIMITS
-VARIABLES pc, hist, lim, areas, integral, nresume
-vars == <<pc, hist, lim, areas, integral, nresume>>
+(* SINGLE_STEP = the single_step option (the maximum becomes "point count before the last refinement + 1"); RECALC = N > 0 models *)
+(* recalculate_frequently with refinements_for_recalculate = N: when the number of refined areas divided by N exceeds the     *)
+(* recalculation counter, refine() marks EVERY live area new again (reinit_new_objects) so that the next evaluation           *)
+(* recomputes everything; 0 = option off.                                                                                   *)
+CONSTANTS MAXK, MAXAREAS, STYLE, SUBTRACT_OLD, ALLOW_RESUME, LIMITS, SINGLE_STEP, RECALC
+VARIABLES pc, hist, lim, areas, integral, nresume, lastCount, nref, counter
+vars == <<pc, hist, lim, areas, integral, nresume, lastCount, nref, counter>>
 
 RECURSIVE Pow2(_)
 Pow2(n) == IF n = 0 THEN 1 ELSE 2 * Pow2(n - 1)
@@ -22,7 +26,8 @@ Live == {id \in DOMAIN areas : areas[id].live}
 Ideal == FoldSet(LAMBDA id, acc : acc + Val(id), 0, Live)
 LastNp == IF hist = <<>> THEN 1 ELSE hist[Len(hist)][2]
 
-Init == /\ pc = "eval" /\ hist = <<>> /\ lim \in LIMITS /\ nresume = 0
+Lim == EffLim(lim, SINGLE_STEP, lastCount)
+Init == /\ pc = "eval" /\ hist = <<>> /\ lim \in LIMITS /\ nresume = 0 /\ lastCount = -1 /\ nref = 0 /\ counter = 1
         /\ areas = [id \in 1..2 |-> [live |-> TRUE, isNew |-> TRUE, contrib |-> 0]]
         /\ integral = 0
 
@@ -38,10 +43,12 @@ Evaluate(eok, np) ==
                 /\ integral' = (IF SUBTRACT_OLD THEN integral - old ELSE integral) + add
     /\ hist' = Append(hist, <<eok, np>>)
     /\ pc' = "decide"
-    /\ UNCHANGED <<lim, nresume>>
+    /\ UNCHANGED <<lim, nresume, lastCount, nref, counter>>
 
-DecideStop   == pc = "decide" /\ MustStop(hist[Len(hist)], lim) /\ pc' = "done" /\ UNCHANGED <<hist, lim, areas, integral, nresume>>
-DecideRefine == pc = "decide" /\ ~MustStop(hist[Len(hist)], lim) /\ pc' = "refine" /\ UNCHANGED <<hist, lim, areas, integral, nresume>>
+DecideStop   == pc = "decide" /\ MustStop(hist[Len(hist)], Lim) /\ pc' = "done" /\ UNCHANGED <<hist, lim, areas, integral, nresume, lastCount, nref, counter>>
+DecideRefine == /\ pc = "decide" /\ ~MustStop(hist[Len(hist)], Lim) /\ pc' = "refine"
+                /\ lastCount' = IF SINGLE_STEP THEN hist[Len(hist)][2] ELSE lastCount
+                /\ UNCHANGED <<hist, lim, areas, integral, nresume, nref, counter>>
 
 (* refine(): clear the new markers, replace every selected area by two children (marked new), *)
 (* subtract the removed areas' contributions from the running result                          *)
@@ -50,17 +57,20 @@ Refine(S) ==
     /\ Cardinality(DOMAIN areas) + 2 * Cardinality(S) <= MAXAREAS
     /\ LET n == Cardinality(DOMAIN areas)
            kids == (n + 1)..(n + 2 * Cardinality(S))
+           nr == nref + Cardinality(S)
+           recalc == RECALC > 0 /\ nr > counter * RECALC          \* refinements / refinements_for_recalculate > counter
        IN  /\ areas' = [id \in DOMAIN areas \cup kids |->
                           IF id \in kids THEN [live |-> TRUE, isNew |-> TRUE, contrib |-> 0]
                           ELSE IF id \in S THEN [live |-> FALSE, isNew |-> FALSE, contrib |-> 0]
-                          ELSE [areas[id] EXCEPT !.isNew = FALSE]]
+                          ELSE [areas[id] EXCEPT !.isNew = recalc]]
            /\ integral' = integral - FoldSet(LAMBDA id, acc : acc + areas[id].contrib, 0, S)
+           /\ nref' = nr /\ counter' = IF recalc THEN counter + 1 ELSE counter
     /\ pc' = "eval"
-    /\ UNCHANGED <<hist, lim, nresume>>
+    /\ UNCHANGED <<hist, lim, nresume, lastCount>>
 
 Resume(l2) == /\ ALLOW_RESUME /\ pc = "done" /\ nresume < 1 /\ l2 \in LIMITS
               /\ lim' = l2 /\ pc' = "eval" /\ nresume' = nresume + 1
-              /\ UNCHANGED <<hist, areas, integral>>
+              /\ UNCHANGED <<hist, areas, integral, lastCount, nref, counter>>
 
 Next == \/ \E eok \in BOOLEAN, np \in 1..(MAXK + 2) : Evaluate(eok, np)
         \/ DecideStop \/ DecideRefine
@@ -71,8 +81,11 @@ Spec == Init /\ [][Next]_vars
 (* ---------------- C05 ---------------- *)
 C05_ResultIsCombination == pc \in {"decide", "done", "refine"} => integral = Ideal
 (* ---------------- C13 ---------------- *)
-C13_StopOnlyWhenDue   == pc = "done" => MustStop(hist[Len(hist)], lim)
-C13_RefineOnlyWhenNotDue == pc = "refine" => ~MustStop(hist[Len(hist)], lim)
+C13_StopOnlyWhenDue   == pc = "done" => MustStop(hist[Len(hist)], Lim)
+C13_RefineOnlyWhenNotDue == pc = "refine" => ~MustStop(hist[Len(hist)], Lim)
+(* single_step: a call refines at most until the first evaluation that shows two more points than before the last refinement; it never   *)
+(* refines twice in a row when each refinement adds at least two points                                                                *)
+I_SingleStepStops     == (SINGLE_STEP /\ pc = "decide" /\ lastCount >= 0 /\ hist[Len(hist)][2] > lastCount + 1) => MustStop(hist[Len(hist)], Lim)
 C13_NoRefineAfterStop == [][pc = "done" => pc' \in {"done", "eval"} /\ (pc' = "eval" => lim' \in LIMITS /\ UNCHANGED areas)]_vars
 C13_PointsMonotone    == \A i \in 1..(Len(hist) - 1) : hist[i][2] <= hist[i + 1][2]
 (* ---------------- C14 ---------------- *)
